@@ -8,7 +8,7 @@
 From Coq Require Import List NArith Bool.
 From Coq Require Import Strings.Byte.
 From GoBT Require Import lib.Bytes lib.VarInt lib.Sha256 model.Tx spec.DigestSpec model.SigHash
-  model.SigHashWire proofs.SigHashProofs proofs.AuditASigHash.
+  model.SigHashWire proofs.SigHashProofs proofs.AuditASigHash model.SigHeap proofs.SigHeapProofs.
 Import ListNotations.
 Local Open Scope N_scope. Local Open Scope bool_scope.
 
@@ -47,17 +47,72 @@ Theorem C03_legacy_single_bug : forall t i ht inp, ht < 256 -> has_forkid ht = f
 Proof. exact legacy_single_bug. Qed.
 Print Assumptions C03_legacy_single_bug.
 
-(** the transaction passed in is never modified
-    (holds by construction of the model: every branch returns the transaction it was given and the edits are
-    made on an immutable copy; what the clause is about - Clone sharing *Output / *Script pointers with the
-    caller, Input.Bytes initialising a nil script in place - cannot be expressed here and is carried by the
-    correspondence, which compares the caller's object field by field before and after) *)
+(** the transaction passed in is never modified.
+    At the VALUE level (the next two statements) this holds by construction: every branch of model/SigHash.v
+    returns the transaction it was given and the edits are made on an immutable copy; they are kept because the
+    correspondence compares this second component with the caller's real object field by field after every call.
+    The clause itself - CalcInputPreimageLegacy writes through txCopy; does the caller see any of it? - is stated
+    and proved on the pointer-level model model/SigHeap.v further down (C03_legacy_never_writes_callers_cells,
+    C03_heap_model_refines_value_model, C03_shallow_clone_would_write), where it can fail. *)
 Theorem C03_legacy_leaves_tx_unchanged : forall t i ht, snd (calc_input_preimage_legacy t i ht) = t.
 Proof. exact legacy_leaves_tx_unchanged. Qed.
 Print Assumptions C03_legacy_leaves_tx_unchanged.
 Theorem C03_sighash_leaves_tx_unchanged : forall t i ht, snd (calc_input_signature_hash t i ht) = t.
 Proof. exact sighash_leaves_tx_unchanged. Qed.
 Print Assumptions C03_sighash_leaves_tx_unchanged.
+
+(** POINTER LEVEL (model/SigHeap.v: a heap of script / input / output / transaction cells, pointers are addresses,
+    explicit stores; CalcInputPreimageLegacy transcribed statement by statement with its stores into txCopy;
+    [clone_deep] is Tx.Clone as written - new *Input, *Output, UnlockingScript and LockingScript cells through the
+    codec, the PreviousTxScript pointers copied from the original).
+    FRAME: for every heap, every pointer, every index and every hash type, and whatever the outcome (bytes, one of
+    the three errors, the SINGLE constant, a panic half way through the edits, log.Fatal), every cell that existed
+    before the call holds afterwards exactly what it held before: the caller's Tx struct with its two slices,
+    every *Input, every *Output and every script. *)
+Theorem C03_legacy_never_writes_callers_cells : forall h p i ht h' r,
+  legacy_preimage_heap clone_deep h p i ht = (h', r) ->
+  forall a, (a < heap_size h)%nat -> cell h' a = cell h a.
+Proof. exact legacy_frame_deep. Qed.
+Print Assumptions C03_legacy_never_writes_callers_cells.
+(** hence the caller's pointer denotes the same transaction value afterwards *)
+Theorem C03_callers_tx_denotes_same_value : forall h p t i ht,
+  abs_tx h p = Some t -> abs_tx (fst (legacy_preimage_heap clone_deep h p i ht)) p = Some t.
+Proof. exact legacy_deep_keeps_callers_tx. Qed.
+Print Assumptions C03_callers_tx_denotes_same_value.
+
+(** REFINEMENT: whenever the pointer [p] denotes the transaction value [t] in the heap (every pointer of the graph
+    leads to a cell of its kind; LockingScripts are not nil), the heap program's outcome - bytes, error, panic,
+    log.Fatal - is the value-level model's outcome on [t].  Every C03 theorem above about
+    [fst (calc_input_preimage_legacy t i ht)] is therefore a theorem about the program that performs the stores. *)
+Theorem C03_heap_model_refines_value_model : forall h p t i ht, abs_tx h p = Some t ->
+  snd (legacy_preimage_heap clone_deep h p i ht) = fst (calc_input_preimage_legacy t i ht).
+Proof. exact legacy_heap_refines. Qed.
+Print Assumptions C03_heap_model_refines_value_model.
+
+(** REFUTATION (the frame statement is falsifiable on this machine): the same program with a clone that copies
+    only the Tx struct ([clone_shallow]: c := *tx).  On an eleven-cell heap holding a 2-in/2-out transaction it
+    returns the same bytes as with Clone as written, but NONE on input 0 has zeroed the sequence number of the
+    caller's input 1 and replaced its two scripts (cell 5), and SINGLE on input 1 has blanked the caller's output 0
+    (cell 7); the caller's pointer no longer denotes the same transaction. *)
+Example C03_shallow_clone_would_write :
+  (let '(h', r) := legacy_preimage_heap clone_shallow ex_heap ex_ptr 0 2 in
+   r = snd (legacy_preimage_heap clone_deep ex_heap ex_ptr 0 2) /\ (exists b, r = SOk b) /\
+   (5 < heap_size ex_heap)%nat /\ cell h' 5%nat <> cell ex_heap 5%nat /\
+   get_input h' 5%nat = Some (mkIR (repeat_byte 32 xcd) 1 (Some 13%nat) (Some 12%nat) 0 0) /\
+   abs_tx h' ex_ptr <> abs_tx ex_heap ex_ptr) /\
+  (let '(h', r) := legacy_preimage_heap clone_shallow ex_heap ex_ptr 1 3 in
+   r = snd (legacy_preimage_heap clone_deep ex_heap ex_ptr 1 3) /\ (exists b, r = SOk b) /\
+   (7 < heap_size ex_heap)%nat /\ cell h' 7%nat <> cell ex_heap 7%nat /\
+   abs_tx h' ex_ptr <> abs_tx ex_heap ex_ptr).
+Proof. exact (conj shallow_clone_writes_none shallow_clone_writes_single). Qed.
+Print Assumptions C03_shallow_clone_would_write.
+(** the example heap is one the refinement applies to *)
+Example C03_example_heap_denotes :
+  abs_tx ex_heap ex_ptr =
+  Some (mkTx 1 [mkInput (repeat_byte 32 xab) 3 [x51] 4294967295 5000 (Some [x76; xa9]);
+                mkInput (repeat_byte 32 xcd) 0 [x52] 7 1 (Some [x51])]
+             [mkOutput 1000 [x6a]; mkOutput 2000 [x6a; x6a]] 0).
+Proof. exact ex_heap_denotes. Qed.
 
 (** inputs with and without unlocking scripts already filled in give the same preimage: two
     transactions that differ only in unlocking scripts (of the signed input or of any other) *)
